@@ -26,6 +26,9 @@ def structs(count, seed):
             out.append({"n": n, "pairs": pairs})
     for k, s in enumerate(out):
         s["seq"] = [ss.LETTERS[(i * 3 + k) % 4] for i in range(s["n"])]
+        if k % 3 == 2:
+            # letters beyond ACGU: the gap placeholder '?' of the 3D->2D mapping, modified-residue and IUPAC codes
+            s["seq"] = [("?", "I", "X", "n", "P", "N")[(i + k) % 6] if i % 3 == 0 else x for i, x in enumerate(s["seq"])]
     return out[:count]
 
 
